@@ -182,6 +182,13 @@ func (g *Gen) mulGrid(share float64) {
 			default:
 				na = 20 + g.r.Intn(15)
 			}
+			if size == 0 && t.j <= 9 && g.r.Intn(3) == 0 {
+				// a product below 2^64 whose j low digits fall below the smallest exponent
+				if x, y, ok := g.mulSubnormal(t); ok {
+					g.allModes("Mul", x, y)
+					return
+				}
+			}
 			if x, y, ok := g.mulWithTail(t.j, g.tailValue(t), total, na); ok {
 				g.allModes("Mul", x, y)
 				return
@@ -513,4 +520,76 @@ func (g *Gen) floatEdgeGrid(share float64, f func(x d128.Decimal)) {
 	g.gridRun(len(cases), share, func(i int) {
 		f(mk(g.r.Intn(2) == 0, cases[i].c, cases[i].e))
 	})
+}
+
+// ---- comparisons: K * 10^j against K * 10^j + (one non-zero digit somewhere in the j low digits) ------------------
+// Comparison code aligns the operands by dividing the longer coefficient in stages (10^19, 10^8, ...) and must remember
+// that something non-zero was discarded at ANY stage.
+func (g *Gen) cmpTailGrid(share float64, f func(x, y d128.Decimal)) {
+	var js []int
+	for j := 1; j <= 34; j++ {
+		js = append(js, j)
+	}
+	grid := tailGrid(js)
+	g.gridRun(len(grid), share, func(i int) {
+		t := grid[i]
+		if t.guard != 0 && t.guard != 9 {
+			return
+		}
+		nk := 35 - t.j
+		if nk > 1 && g.r.Intn(3) == 0 {
+			nk = 1 + g.r.Intn(nk)
+		}
+		k := randDigits(g.r, nk)
+		if g.r.Intn(4) == 0 {
+			k = pow10(nk - 1)
+		}
+		long := new(big.Int).Mul(k, pow10(t.j))
+		long.Add(long, g.tailValue(t))
+		if long.Cmp(cMax) > 0 {
+			return
+		}
+		e := g.r.Intn(41) - 20
+		if g.r.Intn(5) == 0 {
+			e = eMin + g.r.Intn(eMax-eMin-40)
+		}
+		neg := g.r.Intn(2) == 0
+		x := mk(neg, k, e+t.j)
+		y := mk(neg, long, e)
+		if g.r.Intn(6) == 0 {
+			y = y.Neg()
+		}
+		f(x, y)
+	})
+}
+
+// mulSubnormal: small operands (product below 2^64) whose exact product ends in the tail and lies j digits below the
+// smallest exponent, so that exactly the tail is rounded away
+func (g *Gen) mulSubnormal(t tailSpec) (x, y d128.Decimal, ok bool) {
+	total := t.j + g.r.Intn(19-t.j)
+	if total < t.j {
+		total = t.j
+	}
+	na := 1 + g.r.Intn(9)
+	if na >= total {
+		na = total - 1
+	}
+	if na < 1 {
+		na = 1
+	}
+	x, y, ok = g.mulWithTail(t.j, g.tailValue(t), total+1, na)
+	if !ok {
+		return
+	}
+	_, xn, xc, _ := unmk(x)
+	_, yn, yc, _ := unmk(y)
+	if new(big.Int).Mul(xc, yc).BitLen() > 63 {
+		return x, y, false
+	}
+	e1 := eMin + g.r.Intn(3000)
+	e2 := eMin - t.j - e1
+	if e2 < eMin || e2 > eMax {
+		return x, y, false
+	}
+	return mk(xn, xc, e1), mk(yn, yc, e2), true
 }
